@@ -1,7 +1,7 @@
 SPECIFICATION FairSpec
 CONSTANTS
   Workers = {w1}
-  Clients = {c1, c2}
+  Clients = {c1}
   Digests = {d1, d2}
   NoCache = {d2}
   Invs = {"i1"}
@@ -10,10 +10,11 @@ CONSTANTS
   RetryLimit = 1
   Predeclared = TRUE
   AllowRequeue = FALSE
-  Features = {"cancel", "kill"}
+  Features = {"cancel"}
 INVARIANTS
   TypeOK
 PROPERTIES
   C02_Delivery
   C06_WorkerWoken
+VIEW View
 CHECK_DEADLOCK FALSE
